@@ -191,7 +191,7 @@ def kani_cmd(harnesses, jobs=16, harness_timeout=600):
 UNDECIDED_MARKERS = ('unwinding assertion', 'is not currently supported by Kani', 'not currently supported',
                      'recursion unwinding', 'CBMC timed out', 'timed out', 'out of memory', 'unsupported', 'std::bad_alloc',
                      'CBMC failed', 'terminated by signal', 'Killed')
-MEM_LIMIT_BYTES = int(os.environ.get('VERIF_MEM_GB', '20')) * 1024 ** 3      # address-space limit per verifier process: a harness that needs more is undecided, not a danger to the machine
+MEM_LIMIT_BYTES = int(os.environ.get('VERIF_MEM_GB', '36')) * 1024 ** 3      # address-space limit per verifier process: a harness that needs more is undecided, not a danger to the machine
 
 
 def _limit_memory():
